@@ -256,6 +256,16 @@ func (g *VG) Type(t schema.Type, i, depth int) any {
 	}
 	if schema.IsPrimitive(t.Name) {
 		l := g.PrimValues(t.Name)
+		if g.BigN > 0 && depth > 0 && t.Name == "string" {
+			// big containers are about element COUNT: keep their elements short
+			var short []any
+			for _, x := range l {
+				if len(x.(string)) <= 64 {
+					short = append(short, x)
+				}
+			}
+			l = short
+		}
 		return l[i%len(l)]
 	}
 	d := g.C.S.Find(t.Name)
@@ -371,22 +381,39 @@ func (g *VG) Records(d *schema.Def, n int) []any {
 // field takes each of its variants (nil, empty, one, several, many elements) at least once
 // while everything around it is present too.
 func (g *VG) RecordsRich(d *schema.Def, n int) []any {
-	out := g.Records(d, n)
-	if out == nil {
-		return nil
+	var out []any
+	g.EachRich(d, n, func(v any) bool {
+		out = append(out, v)
+		return true
+	})
+	return out
+}
+
+// EachRich produces the values of RecordsRich one at a time (f returns false to stop).
+func (g *VG) EachRich(d *schema.Def, n int, f func(v any) bool) {
+	if !g.Finite(d) {
+		return
+	}
+	for i := 0; i < n; i++ {
+		if !f(g.Record(d, i, 0)) {
+			return
+		}
 	}
 	nb := 1
 	if d.Kind == "union" {
 		nb = len(d.Branches)
 	}
+	defer func() { g.shift = 0 }()
 	for s := 1; s <= 6; s++ {
-		g.shift = s
 		for b := 0; b < nb && b < 4; b++ {
-			out = append(out, g.Record(d, b, 0))
+			g.shift = s
+			v := g.Record(d, b, 0)
+			g.shift = 0
+			if !f(v) {
+				return
+			}
 		}
 	}
-	g.shift = 0
-	return out
 }
 
 // ---------------------------------------------------------------------------------------
